@@ -839,3 +839,62 @@ def w8(proj, rep, modules):
             rep.ok('W8', fi.qual, 'no saturating function on the parameter path', m, fi.node, text=f'{fi.qual} saturation')
     rep.count('W8.forward_maps', n)
     return n
+
+
+# ------------------------------------------------------------------------------------------------ DOM1
+RULE_DOM1 = ('DOM1: the integer domain that a public function admits through its `assert`s is not narrower than the domain the property quantifies over '
+             '(frozen table: smallest admissible value per parameter). A tightened precondition (`num_qudit > 1` for `>= 1`) turns a documented input into an '
+             'AssertionError - or, under `python -O`, into whatever the unguarded code does.')
+DOM1_TABLE = {
+    'numqi.dicke.get_dicke_basis': {'num_qudit': 1, 'dim': 2},
+    'numqi.dicke.get_dicke_klist': {'num_qudit': 1, 'dim': 2},
+    'numqi.dicke.get_partial_trace_ABk_to_AB_index': {'num_qudit': 1, 'dim': 2},
+}
+
+
+def _lower_bounds(test, out):
+    """collect (param -> smallest admitted integer) from a conjunction of comparisons with integer literals"""
+    if isinstance(test, ast.BoolOp) and isinstance(test.op, ast.And):
+        for v in test.values:
+            _lower_bounds(v, out)
+        return
+    if isinstance(test, ast.Compare) and len(test.ops) == 1:
+        l, op, r = test.left, test.ops[0], test.comparators[0]
+        if isinstance(l, ast.Name) and isinstance(r, ast.Constant) and isinstance(r.value, int) and not isinstance(r.value, bool):
+            if isinstance(op, ast.Gt):
+                out[l.id] = max(out.get(l.id, -10**9), r.value + 1)
+            elif isinstance(op, ast.GtE):
+                out[l.id] = max(out.get(l.id, -10**9), r.value)
+            elif isinstance(op, ast.Eq):
+                out[l.id] = max(out.get(l.id, -10**9), r.value)
+        elif isinstance(r, ast.Name) and isinstance(l, ast.Constant) and isinstance(l.value, int) and not isinstance(l.value, bool):
+            if isinstance(op, ast.Lt):
+                out[r.id] = max(out.get(r.id, -10**9), l.value + 1)
+            elif isinstance(op, ast.LtE):
+                out[r.id] = max(out.get(r.id, -10**9), l.value)
+
+
+def dom1(proj, rep, table=None):
+    rep.rule('DOM1', RULE_DOM1)
+    n = 0
+    for q, want in (table or DOM1_TABLE).items():
+        fi = proj.func(q)
+        m = fi.module
+        rep.touch(m)
+        lb = {}
+        asserts = [s for s in fi.node.body if isinstance(s, ast.Assert)]
+        for a in asserts:
+            _lower_bounds(a.test, lb)
+        for p, lo in want.items():
+            if p not in fi.all_params:
+                rep.undecided('DOM1', q, f'parameter `{p}` not found', m, fi.node, text=f'{q}.{p} domain')
+                continue
+            n += 1
+            got = lb.get(p)
+            if got is not None and got > lo:
+                a = next(a for a in asserts if any(isinstance(x, ast.Name) and x.id == p for x in ast.walk(a.test)))
+                rep.violation('DOM1', q, f'`{ast.unparse(a)[:70]}` admits `{p}` only from {got}; the property quantifies from {lo}: `{p}={lo}` is now rejected', m, a)
+            else:
+                rep.ok('DOM1', q, f'`{p}` admitted from {got if got is not None else "-inf"} (needed: {lo})', m, fi.node, text=f'{q}.{p} domain')
+    rep.count('DOM1.parameters', n)
+    return n
